@@ -98,6 +98,20 @@ def rule_r1(ctx: Ctx) -> None:
     good = o["raised"] == "DSDLSyntaxError" and exc is not None and str(getattr(exc, "path", None)) == "/w/ns/sub/T.1.2.dsdl"
     ctx.check(good, rd.short, "a fault of the definition leaves with the definition's own path", "the handler stamps the context of the file being processed and re-raises the same exception", rd.where(), {"raised": o["raised"], "path": str(getattr(exc, "path", None))})
 
+    # ... wherever in the read the fault is found: while the builder is set up, while the text is processed, and when the type
+    # is assembled at the end (missing @sealed / @extent, a union with one variant, a port-ID outside the regulated range)
+    stage_bad = []
+    for stage in ("parse", "finalize"):  # (setting up the builder evaluates nothing of the definition: it cannot find a fault)
+        for cls_ in ("InvalidDefinitionError", "DSDLSyntaxError"):
+            own2 = R.own_definition(ctx, "ns.sub.T", 1, 2)
+            w2 = R.World()
+            o2 = R.read_own(ctx, own2, [R.ADef(w2, "ns.sub.U", 1, 0)], fail_stage=stage, fail_cls=cls_)
+            ctx.count()
+            exc2 = o2.get("exc")
+            if o2["raised"] != cls_ or exc2 is None or str(getattr(exc2, "path", None)) != "/w/ns/sub/T.1.2.dsdl":
+                stage_bad.append({"fault found while": stage, "class": cls_, "left as": o2["raised"], "path": str(getattr(exc2, "path", None)), "expected path": "/w/ns/sub/T.1.2.dsdl"})
+    ctx.check(not stage_bad, rd.short, "a fault found at any stage of the read (statements, final assembly) leaves with the definition's own path", "the error's path is the file containing the fault - also for a fault that only shows when the type is assembled, and also when the definition is read as somebody's dependency", rd.where(), stage_bad[:3])
+
     # the namespace reader: the same for every target, and an error that already names a file keeps it
     nsr = ctx.func("_namespace_reader.read_definitions")
     bad = []
